@@ -556,8 +556,9 @@ fn integer_cells(ctx: &mut Ctx) {
         Tree::Obj(vec![("a".into(), Tree::Arr(vec![Tree::Num(Num::U(1)), Tree::Num(Num::U(2))]))]),
         Tree::Num(Num::U(7)),
     ];
-    for t in &docs {
-        let enc = refcodec::encode(t);
+    for (t, as_text) in docs.iter().flat_map(|t| [(t, false), (t, true)]) {
+        // the same extremes on the JSONB encoding and on the JSON text of the document
+        let enc = if as_text { crate::refjson::compact(t) } else { refcodec::encode(t) };
         let len = if let Tree::Arr(v) = t { v.len() as i32 } else { 0 };
         let mut positions: Vec<i32> = EXTREMES.to_vec();
         positions.extend([-len - 1, -len, len - 1, len, len + 1]);
@@ -566,7 +567,7 @@ fn integer_cells(ctx: &mut Ctx) {
                 return;
             }
             ctx.count("integer-cells");
-            let info = || format!("doc={} position={}", t.show(), pos);
+            let info = || format!("doc{}={} position={}", if as_text { "(as text)" } else { "" }, t.show(), pos);
             // delete_by_index / array_insert
             let got = call_buf(ctx, "delete_by_index(extreme)", |o| jsonb::delete_by_index(&enc, pos, o), &info);
                 super::c06::judge(ctx, "delete_by_index(extreme)", got, &refops::delete_by_index(t, pos), false, &info);
@@ -604,6 +605,9 @@ fn integer_cells(ctx: &mut Ctx) {
                 vec![AIdx::Range(Idx::Last(i32::MIN + 1), Idx::Last(pos))],
             ];
             for f in forms {
+                if as_text {
+                    break;
+                }
                 // `last - 2147483648` cannot be written (the grammar reads an i32 after the minus)
                 let writable = f.iter().all(|a| match a {
                     AIdx::One(Idx::Last(n)) | AIdx::Range(Idx::Last(n), _) | AIdx::Range(_, Idx::Last(n)) => *n != i32::MIN,
@@ -637,14 +641,167 @@ fn integer_cells(ctx: &mut Ctx) {
     }
 }
 
+/// every pairing of number encodings (signed, unsigned, float; zero, negative, huge, NaN,
+/// infinities) through everything that orders or equates numbers. A mutual recursion between
+/// two arms of the ordering exhausts the stack for one particular pairing only; that kills the
+/// process, which the driver reports as a process abort of this case.
+fn number_class_cells(ctx: &mut Ctx) {
+    let reps: Vec<Num> = vec![
+        Num::I(-3), Num::I(0), Num::I(5), Num::I(i64::MIN), Num::U(0), Num::U(5), Num::U(u64::MAX), Num::f(0.5), Num::f(-3.0), Num::f(5.0), Num::f(-0.0), Num::f(1e300), Num::f(-1e300),
+        Num::f(f64::NAN), Num::f(f64::INFINITY), Num::f(f64::NEG_INFINITY),
+    ];
+    let mut rng = ctx.rng.fork();
+    for a in &reps {
+        for b in &reps {
+            if !ctx.next_case() {
+                return;
+            }
+            ctx.count("number-class-cells");
+            let info = || format!("numbers {} and {}", a.show(), b.show());
+            let (ta, tb) = (Tree::Num(*a), Tree::Num(*b));
+            let (ea, eb) = (refcodec::encode(&ta), refcodec::encode(&tb));
+            let (arr_a, arr_b) = (refcodec::encode(&Tree::Arr(vec![ta.clone(), tb.clone()])), refcodec::encode(&Tree::Arr(vec![tb.clone()])));
+            let r = guard(|| {
+                let (la, lb) = (a.to_lib(), b.to_lib());
+                let _ = la.cmp(&lb);
+                let _ = la == lb;
+                let _ = jsonb::compare(&ea, &eb);
+                let _ = jsonb::compare(&arr_a, &arr_b);
+                let _ = jsonb::contains(&arr_a, &arr_b);
+                let _ = jsonb::contains(&ea, &eb);
+                let _ = jsonb::array_overlap(&arr_a, &arr_b);
+                let mut o = Vec::new();
+                let _ = jsonb::array_distinct(&arr_a, &mut o);
+                let mut o = Vec::new();
+                let _ = jsonb::array_intersection(&arr_a, &arr_b, &mut o);
+                let _ = ta.to_value() == tb.to_value();
+                let mut k = Vec::new();
+                jsonb::convert_to_comparable(&arr_a, &mut k);
+            });
+            if let Err(p) = r {
+                ctx.panic_violation("compare/contains/sets(number classes)", &p, &info);
+            }
+            if a.is_finite() && b.is_finite() {
+                // as text, and through a path filter with the second number as literal
+                let (xa, xb) = (crate::refjson::compact(&ta), crate::refjson::compact(&tb));
+                let r = guard(|| {
+                    let _ = jsonb::compare(&xa, &xb);
+                    let _ = jsonb::compare(&xa, &eb);
+                    let _ = jsonb::contains(&xa, &xb);
+                });
+                if let Err(p) = r {
+                    ctx.panic_violation("compare/contains(number classes, text)", &p, &info);
+                }
+                for op in ["==", "<", ">=", "!="] {
+                    let text = format!("$[*] ? (@ {} {})", op, String::from_utf8_lossy(&xb));
+                    for mode in 0..2 {
+                        if let super::paths::Sel::Panic(p) = super::paths::select(text.as_bytes(), &arr_a, mode) {
+                            ctx.panic_violation("select(number classes)", &p, &info);
+                        }
+                    }
+                    let pred = format!("$[0] {} $[1]", op);
+                    if let Err(p) = super::paths::predicate_match(pred.as_bytes(), &arr_a) {
+                        ctx.panic_violation("predicate_match(number classes)", &p, &info);
+                    }
+                }
+            }
+            let _ = &mut rng;
+        }
+    }
+}
+
+/// every \uXXXX code unit on its own, and surrogate pairs around the range ends, through each
+/// parser that decodes escapes: a value or an error, never a panic
+fn escape_cells(ctx: &mut Ctx) {
+    let step = if ctx.miri { 997 } else { 1 };
+    let mut u = ctx.shard as u32 * step;
+    ctx.next_case();
+    let mut swept = 0u64;
+    while u <= 0xFFFF {
+        for text in [format!("\"\\u{:04x}\"", u), format!("\"\\u{:04X}x\"", u), format!("[\"a\\u{{{:x}}}\"]", u)] {
+            if let Err(p) = guard(|| jsonb::parse_value(text.as_bytes()).map(|_| ())) {
+                ctx.panic_violation("parse_value(escape)", &p, &|| format!("text={:?}", text));
+            }
+        }
+        if u % 64 == (ctx.shard as u32 % 64) || (0xD7F0..=0xE010).contains(&u) {
+            let kp = format!("{{\"\\u{:04x}\"}}", u);
+            if let Err(p) = guard(|| jsonb::keypath::parse_key_paths(kp.as_bytes()).map(|_| ())) {
+                ctx.panic_violation("parse_key_paths(escape)", &p, &|| format!("text={:?}", kp));
+            }
+            let jp = format!("$.\"\\u{:04x}\" ? (@ == \"\\u{:04x}\")", u, u);
+            if let Err(p) = guard(|| jsonb::jsonpath::parse_json_path(jp.as_bytes()).map(|_| ())) {
+                ctx.panic_violation("parse_json_path(escape)", &p, &|| format!("text={:?}", jp));
+            }
+        }
+        swept += 1;
+        u += ctx.nshards as u32 * step;
+    }
+    ctx.count_n("escape-cells.code-units", swept);
+    if ctx.shard == 0 {
+        let ends = [0xD800u32, 0xD801, 0xD83D, 0xDBFE, 0xDBFF, 0xDC00, 0xDC01, 0xDFFE, 0xDFFF, 0xD7FF, 0xE000, 0x0041, 0xFFFF];
+        for a in ends {
+            for b in ends {
+                for text in [format!("\"\\u{:04x}\\u{:04x}\"", a, b), format!("\"\\u{{{:x}}}\\u{{{:x}}}\"", a, b), format!("{{\"\\u{:04X}\\u{:04X}\":1}}", a, b)] {
+                    ctx.count("escape-cells.pairs");
+                    if let Err(p) = guard(|| jsonb::parse_value(text.as_bytes()).map(|_| ())) {
+                        ctx.panic_violation("parse_value(escape)", &p, &|| format!("text={:?}", text));
+                    }
+                }
+            }
+        }
+        for big in ["110000", "10ffff", "ffffff", "7fffffff", "ffffffff", "100000000", "0", "d800", "dfff"] {
+            let text = format!("\"\\u{{{}}}\"", big);
+            if let Err(p) = guard(|| jsonb::parse_value(text.as_bytes()).map(|_| ())) {
+                ctx.panic_violation("parse_value(escape)", &p, &|| format!("text={:?}", text));
+            }
+        }
+    }
+}
+
+/// path queries on buffers that held another document of the same size a moment ago, and on
+/// the text of the document
+fn history_cells(ctx: &mut Ctx) {
+    let mon = super::routes::Monitor::new(super::routes::PATHS);
+    let n = ctx.budget(3_000, 60_000);
+    let mut rng = ctx.rng.fork();
+    for _ in 0..n {
+        if !ctx.next_case() {
+            return;
+        }
+        ctx.count("history-cells");
+        let k = 2 + rng.below(3);
+        let strs: Vec<Tree> = (0..k).map(|_| Tree::Str((0..rng.below(4) + 1).map(|_| (b'a' + rng.below(3) as u8) as char).collect())).collect();
+        let doc = if rng.bool() { Tree::Arr(strs) } else { Tree::Obj(vec![("a".into(), Tree::Arr(strs)), ("b".into(), Tree::Str("ab".into()))]) };
+        let i = rng.below(k);
+        let path = match (&doc, rng.below(3)) {
+            (Tree::Arr(_), 0) => format!("$[{}]", i),
+            (Tree::Arr(_), 1) => format!("$[last - {}]", i),
+            (Tree::Arr(_), _) => format!("$[{} to last]", i),
+            (_, 0) => format!("$.a[{}]", i),
+            (_, 1) => format!("$.*[{}]", i),
+            _ => format!("$.a[0 to {}]", i),
+        };
+        let args = super::routes::path_args(&doc, path.clone(), format!("{} == \"ab\"", path), &mut rng);
+        mon.check(ctx, &doc, &doc, &args, &mut rng);
+    }
+}
+
 pub fn run(ctx: &mut Ctx) {
     if ctx.miri {
         // no subprocesses under Miri
         integer_cells(ctx);
+        escape_cells(ctx);
         return;
     }
     cells(ctx);
     if ctx.shard == 0 {
         integer_cells(ctx);
     }
+    if ctx.shard == 1 % ctx.nshards {
+        number_class_cells(ctx);
+    }
+    if ctx.shard == 2 % ctx.nshards {
+        history_cells(ctx);
+    }
+    escape_cells(ctx);
 }
